@@ -144,19 +144,19 @@ func unitsAll(prop string, mon Monitor) func(tier string) []runner.Unit {
 		// stalled readers: the receiving application does not read while the peer writes more
 		// segments than the session's receive structures hold (queue 4096 + buffer): the window
 		// closes, what is in flight is dropped and retransmitted; then the reader resumes
-		us = append(us, runner.Unit{Name: "stalled-reader", Cost: 8, Run: func(u *runner.U) {
-			for i, base := range []Params{
-				{CW: many(4500, 16), SW: []int{3}, RB: 4096, ReadDelay: 4 * time.Second},
-				{CW: []int{7}, SW: many(4500, 9), RB: 65536, ReadDelay: 12 * time.Second},
-				{CW: many(4200, 1300), SW: []int{1}, RB: 65536, ReadDelay: 7 * time.Second},
-			} {
-				p := base
-				p.Prop, p.UDP, p.MTU, p.Latency, p.NSess, p.Seed = prop, true, 1400, 5*time.Millisecond, 1, int64(600+i)
-				p.CTP, p.STP = "nil", "nil"
-				p.Horizon = 300 * time.Second
+		for i, base := range []Params{
+			{CW: many(4500, 16), SW: []int{3}, RB: 4096, ReadDelay: 4 * time.Second},
+			{CW: []int{7}, SW: many(4500, 9), RB: 65536, ReadDelay: 12 * time.Second},
+			{CW: many(4200, 1300), SW: []int{1}, RB: 65536, ReadDelay: 7 * time.Second},
+		} {
+			p := base
+			p.Prop, p.UDP, p.MTU, p.Latency, p.NSess, p.Seed = prop, true, 1400, 5*time.Millisecond, 1, int64(600+i)
+			p.CTP, p.STP = "nil", "nil"
+			p.Horizon = 300 * time.Second
+			us = append(us, runner.Unit{Name: fmt.Sprintf("stalled-reader-%d", i), Cost: 8, Run: func(u *runner.U) {
 				RunOne(u, p, pats, explore.Bound{}, mon)
-			}
-		}})
+			}})
+		}
 		// long one-way transfers: one end only receives acknowledgements for more than a minute
 		// (longer than every idle timeout of the stack), no fault
 		us = append(us, runner.Unit{Name: "long-one-way", Cost: 6, Run: func(u *runner.U) {
